@@ -131,9 +131,12 @@ type spec struct {
 	Steps      int    `json:"steps"`
 	WQ         int    `json:"wq,omitempty"`
 	Prefill    bool   `json:"prefill,omitempty"`
-	Spin       bool   `json:"spin,omitempty"`   // conc: mutators and publishers do not pause
-	Rounds     int    `json:"rounds,omitempty"` // conc: rounds per case
-	QLen       int    `json:"qlen,omitempty"`   // conc: ReadQLen of every context and WriteQLen of every PUB (0: default 128)
+	Spin       bool   `json:"spin,omitempty"`     // conc: mutators and publishers do not pause
+	Rounds     int    `json:"rounds,omitempty"`   // conc: rounds per case; redial: generations
+	Restart    bool   `json:"restart,omitempty"`  // redial: generations may restart the publisher instead of dropping pipes
+	Depth      int    `json:"depth,omitempty"`    // device: forwarders in the chain
+	DevFirst   bool   `json:"devfirst,omitempty"` // device: mangos.Device called before the sockets are connected
+	QLen       int    `json:"qlen,omitempty"`     // conc: ReadQLen of every context and WriteQLen of every PUB (0: default 128)
 }
 
 type rxAPI interface {
